@@ -17,7 +17,7 @@ _NP_METHODS = {'sum', 'cumsum'}
 LIB_SIGS = {
     'rvs': ['size'], 'percentile': ['a', 'q'], 'quantile': ['a', 'q'], 'nanpercentile': ['a', 'q'], 'ppf': ['q'], 'cdf': ['x'], 'sf': ['x'],
     'comb': ['N', 'k'], 'combinations': ['iterable', 'r'], 'date_range': ['start', 'end'], 'isin': ['values'], 'Timestamp': ['ts_input'],
-    'deepcopy': ['x'],
+    'deepcopy': ['x'], 'groupby': ['by'], 'insert': ['loc', 'column', 'value'], 'std': ['a'], 'var': ['a'],
 }
 
 
